@@ -348,8 +348,9 @@ Spec == Init /\ [][Next]_vars
 \* element of a merge list, an element of an !!omap / !!pairs sequence, anything below a mapping that carries a
 \* scalar tag and a '=' key - it never dispatches on that node's own tag, so a foreign tag there is ignored, not
 \* rejected.  H demands rejection there too; Undispatched only names that case class: every offending node is one
-\* the construction (which succeeded) never visited.
-Undispatched(c) == req[c].mustErr /\ lval[c].st = "ok" /\ req[c].off \cap lval[c].vis = {}
+\* the construction never visited (whatever else happened to the load: it satisfies H once the offending nodes are
+\* left out of account).
+Undispatched(c) == req[c].mustErr /\ lval[c].st # "unknown" /\ req[c].off \cap lval[c].vis = {}
 Confined == \A c \in {"Base", "Safe", "Full"} :
               \/ lval[c].st = "unknown" \/ Sat(lval[c], req[c])
               \/ (Undispatched(c) /\ Sat(lval[c], [req[c] EXCEPT !.mustErr = FALSE]))
